@@ -58,6 +58,7 @@ func main() {
 		trace    = flag.Bool("trace", false, "trace instructions")
 		tags     = flag.String("tags", "", "build tags")
 		first    = flag.Bool("stop-at-first", false, "stop at the first failure")
+		focus    = flag.String("focus", "", "comma-separated obligation prefixes (e.g. C03.) decided in this run; assertions of other properties are skipped")
 		verbose  = flag.Duration("progress", 0, "progress interval")
 		minSampleEv = flag.Int("sample-min-events", 3, "minimum number of events of a sampled path")
 		inits    = flag.String("init", "", "extra packages whose init functions run")
@@ -66,6 +67,9 @@ func main() {
 	cfg := &config{entry: *entry, workers: *workers, maxPaths: *maxPaths, maxSteps: *maxSteps, loopCap: *loopCap,
 		solverKind: *solverK, timeoutMs: *timeout, preempt: *preempt, wallLimit: *wall, bounds: map[string]int64{},
 		dumpSMT: *dump, maxFailures: *maxFail, sampleCount: *samples, trace: *trace, stopAtFirst: *first, verboseEvery: *verbose}
+	if *focus != "" {
+		cfg.focus = strings.Split(*focus, ",")
+	}
 	if *bounds != "" {
 		for _, kv := range strings.Split(*bounds, ",") {
 			p := strings.SplitN(kv, "=", 2)
